@@ -427,7 +427,7 @@ def build_cases(ctx, H):
     chains += [chain((b, BCJ_ALIGN[b] * rng.randrange(1, 5000)), small) for b in BCJ]
     chains += [chain("x86", ("delta", 4), small), chain(("delta", 1), "arm64", ("delta", 7), small), chain("arm", "powerpc", "sparc", small)]
     lzma1_variants = [lz("lzma1", dict=4096), lz("lzma1", dict=4096, lc=0, lp=0, pb=0, mode="fast", mf="hc3", nice=16),
-                      lz("lzma1", dict=65536, lc=8 - 4, lp=4, pb=2, mode="normal", mf="bt4", nice=64), lz("lzma1", preset=2)]
+                      lz("lzma1", dict=65536, lc=2, lp=2, pb=2, mode="normal", mf="bt4", nice=64), lz("lzma1", preset=2)]
 
     enc_jobs = []   # (coder, plain, purpose, extra)
 
@@ -565,7 +565,7 @@ def build_cases(ctx, H):
         ch = extra["chain"]
         C.sweep("rawd:" + ch, comp, "a", dec_level(comp, pl), len(pl), "F", "gen-raw")
         if extra.get("lzma1"):
-            base = ch.replace("lzma1,", "lzma1ext,").replace("lzma1", "lzma1ext", 1) if not ch.startswith("lzma1,") else "lzma1ext," + ch[6:]
+            base = "lzma1ext" + ch[len("lzma1"):]
             for ext, fl in ((len(pl), 1), (len(pl), 0), (2 ** 64 - 1, 0), (len(pl) + 1, 1), (max(0, len(pl) - 1), 1)):
                 C.sweep("rawd:%s,extflags=%d,extsize=%d" % (base, fl, ext), comp, "a", dec_level(comp, pl), len(pl), "F", "gen-raw-lzma1ext")
         for _ in range(1 if quick else 3):
@@ -725,14 +725,14 @@ def oracle(ctx, H):
     outs = H.run(lines, costs=[s["cost"] for s in C.sweeps])
     nviol = 0
     total_runs = 0
-    for s, o in zip(C.sweeps, outs):
+    for s, o, ln in zip(C.sweeps, outs, lines):
         kind = s["coder"].split(":")[0]
         if o is None:
             continue
         m = re.search(r" runs=(\d+) diffs=(\d+)$", o)
         ref = parse_results(o.split(" diff=")[0])
         if not m or not ref or "bad-" in o:
-            ctx.obligation_broken("harness did not understand a sweep op", (lines[0][:200] + " -> " + o[:300]))
+            ctx.obligation_broken("harness did not understand a sweep op", (ln[:60] + " ... " + ln[-200:] + " -> " + o[:300]))
             continue
         runs, diffs = int(m.group(1)), int(m.group(2))
         total_runs += runs + 1
